@@ -10,8 +10,15 @@ protocol / transport factory or the replay task of a restore fails.  Per path, a
 or raised: the engine is not paused, the message handler and both flags are what they were, every
 pause of reading/writing is matched by a resume, and the same operation can be invoked again.
 
-The expiry kernel that every view goes through is decided under C14; "every view of every entity after
-any packet history" is outside what is encoded here (entity layer, histories)."""
+Views clause (checks/gwviews.py): a real Gateway is fed a prefix of one of the repository's system logs and then
+one more packet of that history whose payload has a solver-chosen 2-byte window (appended after the history, or
+replacing the original line - a field mutation inside the history); every public view of the gateway and of each
+device, system, zone and DHW, and get_state(), is then read: none raises, the engine is not left paused and a
+later good packet handed over through the protocol's handler slot still reaches its device.
+
+The expiry kernel that every view goes through is decided under C14.  Arbitrary *histories* (deletion,
+reordering, splicing of many packets) are not a solver domain: the claim is for the stated history prefixes plus
+one symbolic packet."""
 from __future__ import annotations
 
 import os
@@ -24,12 +31,17 @@ PROPERTY = "C13"
 LEVEL = "other"
 EXPLANATION = __doc__
 FUNCTIONS = ["ramses_rf.gateway:Gateway.get_state", "ramses_rf.gateway:Gateway._restore_cached_packets", "ramses_rf.gateway:Gateway._pause", "ramses_rf.gateway:Gateway._resume",
-             "ramses_tx.gateway:Engine._pause", "ramses_tx.gateway:Engine._resume", "ramses_tx.message:Message._expired"]
-BOUNDS = {"quick": {"stored messages": "2, each any of 6 verb/code kinds, ages solver reals in [0, 10^6] s", "fault points": "none / any one message's expiry test raising one of 3 exception types / factory or replay-task failure on restore"},
-          "thorough": {"stored messages": 3}}
-OUTSIDE = ["schema/params/status/traits views of devices, systems and zones after arbitrary packet histories (entity layer; histories are not a solver domain)", "packets valid for other systems not disturbing tracking (dispatcher + entity layer)",
+             "ramses_tx.gateway:Engine._pause", "ramses_tx.gateway:Engine._resume", "ramses_tx.message:Message._expired",
+             "ramses_rf.gateway:Gateway._msg_handler", "ramses_rf.dispatcher:process_msg", "ramses_rf.dispatcher:_create_devices_from_addrs", "ramses_rf.entity_base:_MessageDB._handle_msg",
+             "ramses_rf.entity_base:_MessageDB._msg_value_msg", "ramses_rf.system.heat:MultiZone._handle_msg", "ramses_rf.system.heat:System.schema", "ramses_rf.system.heat:System.status",
+             "ramses_rf.system.zones:Zone.schema", "ramses_rf.system.zones:Zone.params", "ramses_rf.system.zones:Zone.status", "ramses_rf.device.heat:BdrSwitch.schema", "ramses_rf.device.heat:Controller._handle_msg",
+             "ramses_rf.gateway:Gateway.schema", "ramses_rf.gateway:Gateway.params", "ramses_rf.gateway:Gateway.status", "ramses_rf.gateway:Gateway.known_list"]
+BOUNDS = {"quick": {"stored messages": "2, each any of 6 verb/code kinds, ages solver reals in [0, 10^6] s", "fault points": "none / any one message's expiry test raising one of 3 exception types / factory or replay-task failure on restore",
+                    "views": "history = first 33-45 lines of tests/tests/systems/{heat_simple,heat_otb_00,heat_ufc_01,_hvac_nuaire}/packet.log; one extra / mutated packet per episode: one representative of each (verb, code, device types, length, leading index) of the history, every 2-byte payload window (windows over embedded device ids, names and zone masks: thorough only); eavesdropping off"},
+          "thorough": {"stored messages": 3, "views": "7 logs, up to 90 lines, all windows, eavesdropping off and on"}}
+OUTSIDE = ["views after arbitrary packet histories (many-packet deletion / reordering / splicing is not a solver domain: only the stated log prefixes + one symbolic packet)", "splicing of packets of other systems into a history",
            "the SQLite message index"]
-STUBS = ["Gateway object without __init__ (engine lock/state, protocol and transport recorders, config flags, devices holding real Message objects)", "schema property -> constant",
+STUBS = ["views: real Gateway(input_file=os.devnull) on the virtual loop; transport -> object that only supplies the packet-log clock (time stamp of the newest packet)", "Gateway object without __init__ (engine lock/state, protocol and transport recorders, config flags, devices holding real Message objects)", "schema property -> constant",
          "restore: protocol_factory / transport_factory -> recorders that fail on a solver Boolean; the replay task -> a future that completes or raises"]
 ASSUMPTIONS = ["a message's expiry test can raise (it did on the pinned tree: zero sync-cycle count-down) - the fault is injected by overriding _expired on one stored message"]
 MIN_CONCLUSIVE_FRACTION = 0.8
